@@ -124,4 +124,9 @@ let run (_prefix : string) (cfg : config) (parts : string list) (_src : string)
                                                 (match e.le_ident with Some i -> JS (implode i) | None -> JL []) ]) es)) ]
              | None -> []) in
       one "in" ast_in @ one "out" ast_out) in
-  hooks @ classes @ directives @ erase_part @ sites_part @ hygiene_part @ shapes_part @ roundtrip_part @ literals_part
+  let order_part =
+    on parts "order" (fun () ->
+      match ast_out with
+      | Some t -> [ ("out_order", strs (order_issues (var_prefix cfg) t)) ]
+      | None -> []) in
+  hooks @ classes @ directives @ erase_part @ sites_part @ hygiene_part @ shapes_part @ roundtrip_part @ literals_part @ order_part
